@@ -95,6 +95,13 @@ def mirror(ctx, rule, fname, which):
                     verdict = "is"
                 elif target_state not in st[1]:
                     verdict = "is-not"
+            if verdict is None:
+                # the callee reports the outcome in a flag of a private result struct: `if outcome.awaiting_outgoing { .. }`
+                for (t, c, b) in lf.conds:
+                    x = look(t)
+                    if x[0] == "field" and x[2] in facts.adts and payload_of(x[1]) is not None and norm(payload_of(x[1])) == norm(e[4]) and truth(c) is not None:
+                        if flag_means_state(ctx, w, x[2], x[3], target_state):
+                            verdict = "is" if truth(c) else "is-not"
             key = "%s|after-%s" % (short, w)
             if verdict is None:
                 ctx.fail(rule, key + "|no-rearm", "%s(): after %s() (which may move the connection to %s) this path neither tests the state nor re-arms the epoll interest; the kernel-side interest can disagree with the state" % (short, w, target_state), fn.loc(e[1]), witness="path blocks %s" % lf.trace[-12:])
@@ -110,6 +117,47 @@ def mirror(ctx, rule, fname, which):
                     ok = True
             ctx.ob(rule, key + "|rearmed", ok, "%s(): state became %s after %s(): epoll_mod with %s interest follows on this path" % (short, target_state, w, "OUT" if interest == EV_OUT else "IN"), fn.loc(e[1]))
     ctx.ob(rule, "%s|floor" % short, n >= 1, "%d call site paths of %s inspected in %s (floor 1)" % (n, "/".join(which), short), fn.loc(0))
+
+
+def flag_means_state(ctx, w, adt, field, target_state):
+    """ClientConnection::<w> returns Ok(S { field: b, .. }) with b == (the connection is in target_state when it returns), on every Ok path:
+    b is the comparison of self.state with target_state evaluated after the last write of the state on that path, or a
+    literal that agrees with the state last written."""
+    facts = ctx.facts
+    fn, lv = leaves(ctx, CC + w)
+    names = [f["name"] for f in facts.struct_fields(adt)]
+    if field not in names:
+        return False
+    n = 0
+    for lf in lv:
+        rk = ret_kind(lf)
+        if rk is None or rk[0] != "Ok":
+            continue
+        r = look(rk[1])
+        if not (r[0] == "agg" and r[1] == adt):
+            return False
+        n += 1
+        v = look(r[3][names.index(field)])
+        writes = [i for i, ev in enumerate(lf.events) if ev[0] == "assign" and ev[3] == "(*_1).state"]
+        if v[0] == "call" and last_seg(v[1]) in ("eq", "ne") and len(v[2]) == 2:
+            ca, cb = srv.state_const(facts, v[2][0]), srv.state_const(facts, v[2][1])
+            if ca is not None and cb is not None:
+                # the state written earlier on this path was propagated into the comparison
+                v = ("const", (ca == cb) == (last_seg(v[1]) == "eq"))
+        if v[0] == "const" and isinstance(v[1], bool):
+            if not writes:
+                return False
+            last = srv.state_const(facts, lf.events[writes[-1]][4])
+            if last is None or v[1] != (last == target_state):
+                return False
+            continue
+        st = state_test(facts, v, ("ne", (0,)))
+        if st is None or st[1] != {target_state} or look(look(st[0]))[0] not in ("arg", "deref", "field"):
+            return False
+        pos = [j for j, ev in enumerate(lf.events) if ev[0] == "call" and norm(ev[4]) == norm(v)]
+        if writes and (not pos or pos[-1] < writes[-1]):
+            return False
+    return n >= 1
 
 
 def sets_state_on_err(ctx, w):
